@@ -753,10 +753,24 @@ impl Scenario for SchedScenario {
             }
             return v;
         }
-        // drop script commands
+        // drop script commands (a candidate must stay a well-formed scenario: waiting for completion while
+        // paused is a user error, which the generator never produces and the minimiser must not invent)
         for i in 0..self.script.len() {
             let mut s = self.clone();
             s.script.remove(i);
+            if s.ending != Ending::Abort {
+                let mut paused = false;
+                for c in &s.script {
+                    match c {
+                        UserCmd::Pause => paused = true,
+                        UserCmd::Resume => paused = false,
+                        _ => {}
+                    }
+                }
+                if paused {
+                    continue;
+                }
+            }
             v.push(s);
         }
         // drop faults
@@ -942,6 +956,17 @@ impl SchedScenario {
                 out.probe(&format!("fault_fired_{kind}"), 1);
             }
             let tag = if what.is_empty() { format!("schedule {k}") } else { format!("{what}, schedule {k}") };
+            // Progress ("the run finishes") is only meaningful under a fair schedule. The seeded personalities
+            // are fair to polling tasks; the explicit ones that only the minimiser creates (a decision list whose
+            // tail follows the FIFO rule, or plain FIFO) are not: two polling tasks can starve the workers for
+            // ever. An execution that does not terminate under such a schedule is not judged, so that the
+            // minimiser cannot trade a real violation for a starvation artefact with the same key.
+            let explicit = matches!(self.personality, Personality::Script { .. } | Personality::Fifo);
+            let nonterminating = matches!(ex.outcome, ExecOutcome::Livelock(_)) || matches!(ex.final_outcome, FinalOutcome::WaitTimeoutForever);
+            if explicit && nonterminating {
+                out.probe("nonterminating_under_explicit_schedule_not_judged", 1);
+                continue;
+            }
             match &ex.outcome {
                 ExecOutcome::Completed => {}
                 ExecOutcome::Deadlock(m) => {
